@@ -1,6 +1,6 @@
 CONSTANTS
-  NInner = 2
-  NStop = 2
+  NInner = 3
+  NStop = 1
   Budget = 1
   Variant = "ok"
 INIT GInit
